@@ -113,7 +113,7 @@ class Closure:
         return _Subst(self, at, depth).visit(_copy(node))
 
     def text(self, node, at, depth=6):
-        return norm_text(strip_array_wrappers(self.expr(node, at, depth)))
+        return norm_text(canon(strip_array_wrappers(self.expr(node, at, depth))))
 
 
 def _copy(node):
@@ -194,3 +194,53 @@ class _StripWrappers(ast.NodeTransformer):
 def strip_array_wrappers(node):
     import copy
     return _StripWrappers().visit(copy.deepcopy(node))
+
+
+class _Canon(ast.NodeTransformer):
+    """canonical operand order of + and * between numeric operands (a + b == b + a): chains are
+    flattened and sorted by text; sequences (lists, tuples, strings, shapes) are left alone"""
+
+    @staticmethod
+    def _seq_like(e):
+        if isinstance(e, (ast.List, ast.Tuple, ast.ListComp, ast.JoinedStr, ast.Dict)):
+            return True
+        if isinstance(e, ast.Constant) and isinstance(e.value, (str, bytes)):
+            return True
+        return any(isinstance(x, ast.Attribute) and x.attr in ('shape', 'columns', 'states')
+                   for x in ast.walk(e)) or \
+            any(isinstance(x, ast.Name) and x.id.isupper() and x.id.endswith('_COLS')
+                for x in ast.walk(e))
+
+    def visit_BinOp(self, node):
+        self.generic_visit(node)
+        if not isinstance(node.op, (ast.Add, ast.Mult)):
+            return node
+        ops = []
+
+        def flat(e):
+            if isinstance(e, ast.BinOp) and type(e.op) is type(node.op):
+                flat(e.left)
+                flat(e.right)
+            else:
+                ops.append(e)
+        flat(node)
+        if any(self._seq_like(o) for o in ops):
+            return node
+        ops.sort(key=lambda o: (not isinstance(o, ast.Constant), norm_text(o)))
+        out = ops[0]
+        for o in ops[1:]:
+            out = ast.BinOp(left=out, op=node.op, right=o)
+        return ast.copy_location(out, node)
+
+
+def canon(node):
+    import copy
+    return ast.fix_missing_locations(_Canon().visit(copy.deepcopy(node)))
+
+
+def canon_text(text):
+    """canonical form of an expression given as text (for expected values)"""
+    try:
+        return norm_text(canon(ast.parse(text, mode='eval').body))
+    except SyntaxError:
+        return text
